@@ -127,9 +127,15 @@ impl<F: AsyncFileSystem + Sync> Server<F> {
         let in_header = r.read_obj().map_err(Error::DecodeMessage)?;
         let mut ctx = SrvContext::<F, S>::new(in_header, r, w);
         self.remap_ctx_ids(&mut ctx)?;
-        if ctx.in_header.len > (MAX_BUFFER_SIZE + BUFFER_HEADER_SIZE)
-            || ctx.w.available_bytes() < size_of::<OutHeader>()
-        {
+        if ctx.in_header.len > (MAX_BUFFER_SIZE + BUFFER_HEADER_SIZE) {
+            if ctx.in_header.opcode == Opcode::Forget as u32
+                || ctx.in_header.opcode == Opcode::BatchForget as u32
+            {
+                // Forget and batch-forget do not require reply.
+                return Err(Error::InvalidMessage(io::Error::from_raw_os_error(
+                    libc::EOVERFLOW,
+                )));
+            }
             return ctx
                 .async_do_reply_error(io::Error::from_raw_os_error(libc::ENOMEM), true)
                 .await;
